@@ -110,3 +110,12 @@ def forall(lo, hi, fn):
 
 def maybe(x):
     return [x]
+
+
+def is_xml(data):
+    import xml.etree.ElementTree as ET
+    try:
+        ET.fromstring(bytes(data))
+        return True
+    except ET.ParseError:
+        return False
